@@ -77,6 +77,6 @@ func runGuardTable(c *Ctx, rule string, ge *GuardEngine, table []GuardReq) {
 			}
 			c.NoteCallSites(len(gs))
 		}
-		CheckReq(c, rule, r, gs)
+		ge.CheckReq(c, rule, r, gs)
 	}
 }
